@@ -2,6 +2,6 @@ CONSTANT Tier = "quick"
 INIT Init
 NEXT Next
 INVARIANT PathSound
-INVARIANT RefinementOutsideIndexing
+INVARIANT Refinement
 INVARIANT Header
 INVARIANT Emit
